@@ -628,7 +628,25 @@ func VF_FSMStep() {
 	vfCheckGlobal(a, post, ev)
 
 	vfCheckInvariants(post, inst)
+	vfCheckDeadline(a, post, inst)
 	vf.Record("edge", "accepted", post.String())
+}
+
+// vfCheckDeadline: C05 "an expired deadline puts the round into a cancelled state": a step inside a collection phase
+// that leaves the round alive (waiting, or advanced to the next phase / signing-ready) must not have an expired deadline.
+func vfCheckDeadline(a, post *vfAbs, inst *FSMInstance) {
+	p := inst.dump.Payload
+	if a.State == vfSigAwait && (post.State == vfSigAwait || post.State == vfSigDone) {
+		vf.Assert("expired-deadline-cancels", !p.SignatureProposalPayload.IsExpired())
+	}
+	for _, ph := range vfDkgPhases {
+		if a.State == ph.await && (post.State == ph.await || post.State == ph.next) {
+			vf.Assert("expired-deadline-cancels", !p.DKGProposalPayload.IsExpired())
+		}
+	}
+	if a.State == vfSignAwait && (post.State == vfSignAwait || post.State == vfSignDone) {
+		vf.Assert("expired-deadline-cancels", !p.SigningProposalPayload.IsExpired())
+	}
 }
 
 // vfCheckInvariants: the invariants gamma assumes for pre-states are re-established by every accepted step.
@@ -1028,4 +1046,66 @@ func VF_FSMStep2() {
 	}
 	vf.Assert(lbl+"payload", vf.Eq(inst.dump.Payload, restored.dump.Payload))
 	vf.Assert(lbl+"dump-state", inst.dump.State == restored.dump.State)
+}
+
+// VFProjection: the public, time-free content of a round (what C08/C13 compare between runs).
+type VFProjection struct {
+	State      string
+	Threshold  int
+	Sig        []int
+	Dkg        []int
+	DkgErr     []bool
+	Commits    [][]byte
+	Deals      [][]byte
+	Responses  [][]byte
+	MasterKeys [][]byte
+	PubPoly    []byte
+	Sgn        []int
+	SgnErr     []bool
+	Partial    []map[string][]byte
+	BatchID    string
+	SrcPayload []byte
+	PubKeys    map[string]ed25519.PublicKey
+	IDs        map[string]int
+}
+
+func VFProject(dump []byte, n int) (VFProjection, bool) {
+	d := &FSMDump{}
+	if err := d.Unmarshal(dump); err != nil || d.Payload == nil {
+		return VFProjection{}, false
+	}
+	p := d.Payload
+	out := VFProjection{State: string(d.State), Threshold: p.Threshold, PubKeys: p.PubKeys, IDs: p.IDs}
+	if p.SignatureProposalPayload != nil {
+		for i := 0; i < n; i++ {
+			if q, ok := p.SignatureProposalPayload.Quorum[i]; ok && q != nil {
+				out.Sig = append(out.Sig, int(q.Status))
+			}
+		}
+	}
+	if p.DKGProposalPayload != nil {
+		for i := 0; i < n; i++ {
+			if q, ok := p.DKGProposalPayload.Quorum[i]; ok && q != nil {
+				out.Dkg = append(out.Dkg, int(q.Status))
+				out.DkgErr = append(out.DkgErr, q.Error != nil)
+				out.Commits = append(out.Commits, q.DkgCommit)
+				out.Deals = append(out.Deals, q.DkgDeal)
+				out.Responses = append(out.Responses, q.DkgResponse)
+				out.MasterKeys = append(out.MasterKeys, q.DkgMasterKey)
+			}
+		}
+		out.PubPoly = p.DKGProposalPayload.PubPolyBz
+	}
+	if p.SigningProposalPayload != nil {
+		out.BatchID = p.SigningProposalPayload.BatchID
+		out.SrcPayload = p.SigningProposalPayload.SrcPayload
+		for i := 0; i < n; i++ {
+			if q, ok := p.SigningProposalPayload.Quorum[i]; ok && q != nil {
+				out.Sgn = append(out.Sgn, int(q.Status))
+				out.SgnErr = append(out.SgnErr, q.Error != nil)
+				out.Partial = append(out.Partial, q.PartialSigns)
+			}
+		}
+	}
+	return out, true
 }
